@@ -3534,6 +3534,17 @@ class SQLCompiler(Compiled):
             def _render_bindtemplate(name):
                 return bind_template % {"name": name}
 
+        # the expanded parameters are named <name>_<n>; step aside if the
+        # statement has another parameter with a name of that form, e.g.
+        # the anonymous "x_1_1" of a comparison to a column named "x_1"
+        # next to the "x_1" of an IN against column "x"
+        while any(
+            other.startswith(name + "_")
+            and other[len(name) + 1 :].replace("_", "").isdigit()
+            for other in self.bind_names.values()
+        ):
+            name += "_"
+
         if not values:
             to_update = []
             if typ_dialect_impl._is_tuple_type:
